@@ -379,6 +379,11 @@ def check(run: Run) -> None:
         if sites < 3:
             raise AnalysisError("anchor-vanished", f"C07.g: {sites} push sites found, expected at least 3")
 
+    with run.obligation("C07.h", "K1", "a simulation run never takes a time from the host clock through the node scheduler: wall-clock alarms are refused unless the executor "
+                        "supports them (shared with C18.b, C18.b2)"):
+        from . import c18
+        R.share(run, "C07.h", c18, ["C18.b", "C18.b2"])
+
 
 VARIANTS = [
     {"id": "g-mesh-scope-popped-only-on-success", "expect": "C07.g", "edits": [{"file": "include/hgraph/lib/std/operators/impl/higher_order_impl.h", "find": "                auto pop = make_scope_exit([] noexcept { OperatorRegistry::instance().pop_mesh_scope(); });\n", "replace": ""}, {"file": "include/hgraph/lib/std/operators/impl/higher_order_impl.h", "find": "explicit_key_meta, &external_services, &w, \"mesh_\");\n", "replace": "explicit_key_meta, &external_services, &w, \"mesh_\");\n                OperatorRegistry::instance().pop_mesh_scope();\n"}]},
